@@ -256,6 +256,18 @@ func (d *Driver) Run() int {
 	if p.Floor != nil && d.Only < 0 {
 		unmet = p.Floor(agg)
 	}
+	if d.Only < 0 {
+		names := make([]string, 0, len(p.MinCounts))
+		for k := range p.MinCounts {
+			names = append(names, k)
+		}
+		sort.Strings(names)
+		for _, k := range names {
+			if agg.Cnt[k] < p.MinCounts[k] {
+				unmet = append(unmet, fmt.Sprintf("counter %s = %d < %d", k, agg.Cnt[k], p.MinCounts[k]))
+			}
+		}
+	}
 	if d.Only < 0 && agg.CasesDone == 0 {
 		unmet = append(unmet, "no case completed")
 	}
